@@ -142,7 +142,7 @@ static void regular_case(Rng& rng, uint64_t)
 	}
 	Run r = run(R.f, a, b, eps, depth);
 	ld ref = swapped ? -R.exact : R.exact;
-	if(r.warned)
+	if(depth < simpson_depth_needed(R.b - R.a, R.f4max, eps))
 		count_outside("error-at-most-4eps-on-regular-integrands");
 	else
 	{
@@ -219,7 +219,7 @@ static void spline_case(Rng& rng, uint64_t)
 		return;
 	}
 	Run r = run(f, a, b, eps, depth);
-	if(r.warned)
+	if(depth < simpson_depth_needed(b - a, vmax, eps))
 		count_outside("error-at-most-4eps-on-regular-integrands");
 	else
 	{
